@@ -369,7 +369,23 @@ fn run(case: &Val) -> Val {
         static NEXT: std::sync::atomic::AtomicUsize = std::sync::atomic::AtomicUsize::new(0);
         const ZONES: [&str; 5] = ["JST-9", "EST5", "Asia/Kolkata", "UTC0", "America/St_Johns"];
         let k = NEXT.fetch_add(1, std::sync::atomic::Ordering::SeqCst);
-        std::env::set_var("TZ", ZONES[k % ZONES.len()]);
+        if k % 3 == 2 {
+            // a zone whose daylight-saving time ends within the coming hour: the local wall-clock time
+            // of "now" is in the REPEATED hour (ambiguous), the situation of one night every autumn
+            use chrono::{Datelike, Timelike};
+            let u = chrono::Utc::now();
+            let day = u.ordinal(); // 1..366
+            let leap = u.date_naive().leap_year();
+            let jday = if leap && day > 59 { day - 1 } else { day }; // POSIX Jn never counts Feb 29
+            let end_hour = u.hour() + 2; // in DST wall-clock time (UTC+1): now is u+1h, the end is 0..1 h ahead
+            if end_hour < 24 && !(leap && day == 60) && jday >= 2 {
+                std::env::set_var("TZ", format!("XST0XDT-1,J1/0,J{}/{}", jday, end_hour));
+            } else {
+                std::env::set_var("TZ", ZONES[k % ZONES.len()]);
+            }
+        } else {
+            std::env::set_var("TZ", ZONES[k % ZONES.len()]);
+        }
         let mut items = case.l().to_vec();
         items[0] = Val::N(1);
         case = Val::L(items);
